@@ -424,7 +424,7 @@ func superviseShard(ck *Check, job Job, tier string, shard, nshards int, deadlin
 		atomic.StoreInt64(prog, -1)
 		cmd := exec.Command(os.Args[0], "-worker", ck.ID, tier, strconv.Itoa(shard), strconv.Itoa(nshards),
 			strconv.Itoa(from), strconv.FormatInt(deadline.Unix(), 10), progFile, strings.Join(skip, ","))
-		cmd.Env = append(os.Environ(), "GOMAXPROCS=1", "GOTRACEBACK=none")
+		cmd.Env = append(os.Environ(), "GOMAXPROCS=1", "GOTRACEBACK=none", "VERIF_RUNDIR="+tmp)
 		stdout, _ := cmd.StdoutPipe()
 		var stderr strings.Builder
 		cmd.Stderr = &limitedWriter{w: &stderr, n: 4000}
